@@ -532,10 +532,10 @@ def f_tree():
              short_flag="S", long_flag="sync", aliases=["sy"])
     fq = cmd("query", [arg("i", "i", action="SetTrue"), arg("s", "s")], short_flag="Q", long_flag="query")
     add("flag-subcommands", cmd("pac", [arg("v", "v", action="Count")], subs=[fs, fq]),
-        extra=["-Syu", "-Sy", "-vS", "-vSy", "-Qi", "-Qs", "-SQ", "-Su"])
+        extra=["-Syu", "-Sy", "-vS", "-vSy", "-Qi", "-Qs", "-SQ", "-Su", b"-S\xff", b"-Sy\xff", b"-vS\xe9"])
     fs2 = cmd("sync", [arg("u", "u", action="SetTrue")], short_flag="S",
               subs=[cmd("inner", [arg("y", "y", action="SetTrue")], short_flag="Q")])
-    add("nested-flag-subcommands", cmd("pac", [arg("v", "v", action="SetTrue")], subs=[fs2]), extra=["-SQy", "-Su", "-SuQ", "-vSQ", "-Qy", "-SQ"])
+    add("nested-flag-subcommands", cmd("pac", [arg("v", "v", action="SetTrue")], subs=[fs2]), extra=["-SQy", "-Su", "-SuQ", "-vSQ", "-Qy", "-SQ", b"-SQ\xe9", b"-S\xff"])
     add("external", cmd("p", [arg("f", "f", action="SetTrue")], subs=[cmd("known", [arg("k", "k", action="SetTrue")])],
                         allow_external_subcommands=True), extra=["ext", "--flag", "-x"])
     add("subcommand-required", cmd("p", [arg("f", "f", action="SetTrue")], subs=[leaf], subcommand_required=True))
